@@ -112,7 +112,7 @@ def check(ctx: Ctx) -> list[RuleResult]:
     r1 = RuleResult("R1", "topology fields have guarded writers", "who may write _parent/ctl/tcs/_sensor/_dhw_*/_app_cntrl, and under which checks", min_instances=12)
     sp = repo.func(f"{EB}.Child.set_parent")
     add = repo.func(f"{EB}.Parent._add_child")
-    fields_child = {"_parent", "ctl", "tcs"}
+    fields_child = {"_parent", "_child_id", "ctl", "tcs"}
     fields_role = {"_sensor", "_dhw_sensor", "_dhw_valve", "_htg_valve", "_app_cntrl"}
     for f in repo.funcs.values():
         if not f.module.name.startswith("ramses_rf"):
@@ -151,18 +151,25 @@ def check(ctx: Ctx) -> list[RuleResult]:
                         node = cfg.nodes_of(n)[0]
                         d1 = cfg.dominated_by(node, lambda x: x.kind == "stmt" and "self._get_parent(" in norm(x.ast))
                         d2 = [x for x in cfg.nodes if x.kind == "test" and "self.ctl and self.ctl is not ctl" in norm(x.ast) and cfg.edge_dominates(x, "false", node)]
-                        if d1 and d2:
-                            r1.ok({"write": f"{f.short}: {norm(n)[:50]}", "after": ["_get_parent()", "controller-change check"]})
+                        # the parent must have accepted the child (its _add_child() may refuse) before the child records the bond
+                        d3 = cfg.dominated_by(node, lambda x: x.kind == "stmt" and any(isinstance(c, ast.Call) and isinstance(c.func, ast.Attribute) and c.func.attr == "_add_child" for c in ast.walk(x.ast)))
+                        if d1 and d2 and not d3:
+                            r1.fail(f"{f.short}:{norm(t)}:before-parent-accepts", f.loc(n), f"set_parent records {norm(t)} before parent._add_child() has accepted the child: a refused binding (e.g. a second sensor for a zone) leaves the child pointing at a parent that does not list it, and its next legitimate binding is then refused")
+                        elif d1 and d2:
+                            r1.ok({"write": f"{f.short}: {norm(n)[:50]}", "after": ["_get_parent()", "controller-change check", "parent._add_child()"]})
                         else:
                             r1.fail(f"{f.short}:{norm(t)}:unguarded", f.loc(n), f"set_parent writes {norm(t)} without both _get_parent() (parent-change check) and the controller-change check before it")
                     else:
                         r1.fail(f"{f.short}:writes:{norm(t)}", f.loc(n), f"{f.short} writes {norm(t)} outside a constructor / Child.set_parent: a device could be moved to another parent without the inconsistency being reported")
                 elif t.attr in fields_role:
                     v = n.value
-                    if isinstance(v, ast.Constant) and v.value is None:
+                    if isinstance(v, ast.Constant) and v.value is None and f.name == "__init__":
                         continue  # initialisation
                     r1.instances += 1
                     r1.nontrivial += 1
+                    if isinstance(v, ast.Constant) and v.value is None:
+                        r1.fail(f"{f.short}:{norm(t)}:cleared", f.loc(n), f"{f.short} clears {norm(t)} outside a constructor: the device that held the role stays bound to this parent (its own _parent/_child_id are untouched), so the next device offered for the role is accepted without the change being reported")
+                        continue
                     if f is add:
                         par = getattr(n, "parent", None)
                         sibs = par.body if isinstance(par, ast.If) and n in par.body else []
